@@ -87,16 +87,16 @@ theorem decides_tofh (env : Env) (st : List Byte) (hlen : st.length = 512) (l : 
 
 /-! ### Hypotheses on the configuration -/
 
-/-- Every rule has an allow/deny/pass action and is API-valid. -/
+/-- Every policy rule has an allow/deny/pass/log action and is API-valid (profile rules:
+allow/deny/pass — a `log` rule in a profile panics the builder, see the findings). -/
 def TiersGood (ts : List Tier) : Prop :=
-  ∀ t ∈ ts, ∀ pol ∈ t.policies, ∀ rule ∈ pol.rules, rule.plainAction = true ∧ RuleOK rule
+  ∀ t ∈ ts, ∀ pol ∈ t.policies, ∀ rule ∈ pol.rules, rule.tierAction = true ∧ RuleOK rule
 
 def ProfsGood (ps : List Policy) : Prop :=
   ∀ pol ∈ ps, ∀ rule ∈ pol.rules, rule.plainAction = true ∧ RuleOK rule
 
 structure ProgOK (env : Env) (st : List Byte) (r : Rules) : Prop where
   ctx : SetCtx env st
-  norec : env.c.record = false
   gT : TiersGood r.tiers
   gHP : TiersGood r.hostPreDnatTiers
   gHF : TiersGood r.hostForwardTiers
@@ -128,9 +128,9 @@ theorem decides_workload (env : Env) (st : List Byte) (r : Rules) (hok : ProgOK 
     exact ⟨Decides.jump env st .allow, by intro l hl; simp [labelsOf, jump, mkJ] at hl⟩
   · have hh' : r.forHostInterface = false := by simpa using hh
     simp only [hh', Bool.false_eq_true, if_false]
-    obtain ⟨dT, lT⟩ := tiers_block env st (pktOfD st) .dest .allow r.tiers rid tid hok.norec (Or.inl rfl) (hok.gT.plain hok.ctx)
+    obtain ⟨dT, lT⟩ := tiers_block env st (pktOfD st) .dest .allow r.tiers rid tid (Or.inl rfl) (hok.gT.plain hok.ctx)
     obtain ⟨dP, lP⟩ := profiles_block env st (pktOfD st) .allow r.profiles r.noProfileMatchID
-      (writeTiers env.c .dest .allow r.tiers rid tid).2.1 hok.norec (Or.inl rfl) (hok.gP.plain hok.ctx)
+      (writeTiers env.c .dest .allow r.tiers rid tid).2.1 (Or.inl rfl) (hok.gP.plain hok.ctx)
     have hshape : flat (match writeTiers env.c Leg.dest Label.allow r.tiers rid tid with
         | (e, rid', _) =>
           match writeProfiles env.c Label.allow r.profiles r.noProfileMatchID rid' with
@@ -270,7 +270,7 @@ theorem decides_host (env : Env) (st : List Byte) (r : Rules) (hok : ProgOK env 
       simpa [hostTarget, hx, hs] using this
     · have hs' : r.suppressNormalHostPolicy = false := by simpa using hs
       rw [hostPart_xdp env.c r hx hs']
-      obtain ⟨d, hl⟩ := tiers_block env st (pktOfD st) .destPreNAT AHP r.hostNormalTiers 0 0 hok.norec hAHP
+      obtain ⟨d, hl⟩ := tiers_block env st (pktOfD st) .destPreNAT AHP r.hostNormalTiers 0 0 hAHP
         (hok.gHN.plain hok.ctx)
       have d2 := Decides.seq d (Decides.jump env st .xdpPass) (by intro l _ hm; simp [labelsOf, jump, mkJ] at hm)
       have d3 := (d2.cons_label TOFH).label AHP
@@ -285,11 +285,11 @@ theorem decides_host (env : Env) (st : List Byte) (r : Rules) (hok : ProgOK env 
         · simp [labelsOf, jump, mkJ] at h
         · simp [labelsOf] at h; subst h; rfl
   · have hx' : r.forXDP = false := by simpa using hx
-    obtain ⟨d1, l1⟩ := tiers_block env st (pktOfD st) .destPreNAT AHP r.hostPreDnatTiers 0 0 hok.norec hAHP
+    obtain ⟨d1, l1⟩ := tiers_block env st (pktOfD st) .destPreNAT AHP r.hostPreDnatTiers 0 0 hAHP
       (hok.gHP.plain hok.ctx)
     obtain ⟨d3, l3⟩ := tiers_block env st (pktOfD st) .dest AHP r.hostForwardTiers
       (writeTiers env.c .destPreNAT AHP r.hostPreDnatTiers 0 0).2.1
-      (writeTiers env.c .destPreNAT AHP r.hostPreDnatTiers 0 0).2.2 hok.norec hAHP (hok.gHF.plain hok.ctx)
+      (writeTiers env.c .destPreNAT AHP r.hostPreDnatTiers 0 0).2.2 hAHP (hok.gHF.plain hok.ctx)
     have dX := Decides.seq d3 (Decides.jump env st AHP) (by intro l _ hm; simp [labelsOf, jump, mkJ] at hm)
     have lX : ∀ l ∈ labelsOf (flat (writeTiers env.c .dest AHP r.hostForwardTiers
         (writeTiers env.c .destPreNAT AHP r.hostPreDnatTiers 0 0).2.1
@@ -331,9 +331,9 @@ theorem decides_host (env : Env) (st : List Byte) (r : Rules) (hok : ProgOK env 
     · have hs' : r.suppressNormalHostPolicy = false := by simpa using hs
       obtain ⟨rid3, tid3, rid5, hshape⟩ := hostPart_nosup env.c r hx' hs'
       rw [hshape]
-      obtain ⟨d5, l5⟩ := tiers_block env st (pktOfD st) .dest AHP r.hostNormalTiers rid3 tid3 hok.norec hAHP
+      obtain ⟨d5, l5⟩ := tiers_block env st (pktOfD st) .dest AHP r.hostNormalTiers rid3 tid3 hAHP
         (hok.gHN.plain hok.ctx)
-      obtain ⟨d6, l6⟩ := profiles_block env st (pktOfD st) AHP r.hostProfiles r.noProfileMatchID rid5 hok.norec hAHP
+      obtain ⟨d6, l6⟩ := profiles_block env st (pktOfD st) AHP r.hostProfiles r.noProfileMatchID rid5 hAHP
         (hok.gHPR.plain hok.ctx)
       have dY := Decides.seq d5 d6 (by
         intro l hl
